@@ -795,6 +795,26 @@ def timing_families(ctx):
         except sansldap.ProtocolError:
             pass
 
+    def recv_long_header_bytewise(n, complete=True, what="length"):
+        """a header that is itself long — a long-form length written with n length octets (leading zeros: legal), or an identifier with an n-octet
+        tag number — delivered ONE OCTET PER receive() call, so that many consecutive calls see an incomplete header"""
+        s = sansldap.LDAPServer()
+        m = M.ExtendedRequest(message_id=1, controls=[], name="1.2", value=None).pack(M.PackingOptions())
+        content = m[2:]
+        if what == "length":
+            data = bytes([0x30, 0x80 | n]) + len(content).to_bytes(n, "big") + (content if complete else b"")
+        else:
+            data = bytes([0x3F]) + bytes([0x81] * (n - 1)) + bytes([0x01]) + bytes([len(content)]) + content
+        try:
+            for b in data:
+                s.receive(bytes([b]))
+        except sansldap.LDAPError:
+            pass
+
+    mid = tuple(range(8, 64, 4)) + (80, 100, 126)
+    fam.append(("receive: long-form length of n octets, delivered octet by octet", lambda n: recv_long_header_bytewise(n), mid))
+    fam.append(("receive: incomplete long-form length of n octets, delivered octet by octet", lambda n: recv_long_header_bytewise(n, complete=False), mid))
+    fam.append(("receive: identifier with an n-octet tag number, delivered octet by octet", lambda n: recv_long_header_bytewise(n, what="tag"), mid + (200, 400)))
     fam.append(("receive one message of n bytes delivered byte by byte", recv_bytewise, big))
     fam.append(("receive n small messages in one chunk", recv_many, big))
     fam.append(("receive n nested AND filters", recv_nested, small + big))
